@@ -30,26 +30,19 @@ Proof.
 Qed.
 
 (** every word is at most 0xFFFF *)
-Lemma wsum_le l : wf_bytes l -> wsum l <= 65535 * N.of_nat (Nat.div2 (S (length l))).
+Lemma wsum_le l : wf_bytes l -> wsum l * 2 <= 65535 * (N.of_nat (length l) + 1).
 Proof.
-  revert l. apply (pair_ind (fun l => wf_bytes l -> wsum l <= 65535 * N.of_nat (Nat.div2 (S (length l))))).
+  revert l. apply (pair_ind (fun l => wf_bytes l -> wsum l * 2 <= 65535 * (N.of_nat (length l) + 1))).
   - intros _. rewrite wsum_nil. lia.
-  - intros x H. inversion H as [|? ? Hx _]; subst. unfold wf_byte in Hx. rewrite wsum_one. cbn. lia.
+  - intros x H. inversion H as [|? ? Hx _]; subst. unfold wf_byte in Hx. rewrite wsum_one. cbn [length]. lia.
   - intros x y t IH H. inversion H as [|? ? Hx H']; subst. inversion H' as [|? ? Hy Ht]; subst.
-    unfold wf_byte in *. rewrite wsum_cons2. specialize (IH Ht).
-    change (Nat.div2 (S (length (x :: y :: t)))) with (S (Nat.div2 (S (length t)))). lia.
+    unfold wf_byte in *. rewrite wsum_cons2. specialize (IH Ht). cbn [length]. lia.
 Qed.
 
-Lemma div2_le n m : (n <= m)%nat -> (Nat.div2 n <= Nat.div2 m)%nat.
-Proof. intros H. rewrite !Nat.div2_div. apply Nat.div_le_mono; [discriminate | exact H]. Qed.
-
-(** a byte string of at most 131 070 bytes cannot wrap the uint32 accumulator *)
-Lemma wsum_lt_2_32 l : wf_bytes l -> (length l <= 131070)%nat -> wsum l < 2 ^ 32.
+(** a byte string of at most 131 072 bytes cannot wrap the uint32 accumulator *)
+Lemma wsum_lt_2_32 l : wf_bytes l -> N.of_nat (length l) <= 131072 -> wsum l < 2 ^ 32.
 Proof.
-  intros W L. pose proof (wsum_le l W) as H.
-  assert (Nat.div2 (S (length l)) <= 65535)%nat.
-  { change 65535%nat with (Nat.div2 131071). apply div2_le. lia. }
-  change (2 ^ 32) with 4294967296. lia.
+  intros W L. pose proof (wsum_le l W) as H. change (2 ^ 32) with 4294967296. lia.
 Qed.
 
 (** ------------------------------------------------------------------
@@ -96,7 +89,8 @@ Proof.
   - intros [|? ?] c L _ _; [|discriminate]. rewrite wsum_nil. cbn. lia.
   - intros x d c _ E. discriminate.
   - intros x y t IH [|u [|v d]] c L E H; try discriminate.
-    rewrite !wsum_cons2 in *. cbn [ia_sum]. rewrite !add2_exact by lia.
+    rewrite !wsum_cons2 in *. cbn [ia_sum]. rewrite (add2_exact c x y) by lia.
+    rewrite add2_exact by lia.
     rewrite IH; [lia | cbn in L; lia | exact E | lia].
 Qed.
 
@@ -106,22 +100,27 @@ Lemma fold_loop_ones c : c < 2 ^ 32 -> fold_loop 4 c = ones c.
 Proof.
   change (2 ^ 32) with 4294967296. intros H. unfold ones. cbn [fold_loop].
   destruct (N.ltb_spec 65535 c) as [H1|H1].
-  - set (c1 := c / 65536 + c mod 65536).
-    assert (B1 : 0 < c1 <= 131070 /\ exists q, c + q * 65535 = c1 + (c / 65536) * 65536 /\ q = 0) by (unfold c1; split; [lia | exists 0; lia]).
-    assert (E1 : (c - 1) mod 65535 = (c1 - 1) mod 65535).
-    { unfold c1. pose proof (N.div_mod' c 65536) as D.
-      replace (c - 1) with ((c / 65536 + c mod 65536 - 1) + (c / 65536) * 65535) by lia.
-      apply N.mod_add. discriminate. }
-    destruct (N.eqb_spec c 0); [lia|]. rewrite E1. clear E1.
-    destruct B1 as [B1 _]. clearbody c1.
+  - destruct (N.eqb_spec c 0) as [->|_]; [lia|].
+    pose proof (N.div_mod' c 65536) as D.
+    pose proof (N.mod_lt c 65536 ltac:(discriminate)) as Hb.
+    set (a := c / 65536) in *. set (b := c mod 65536) in *. clearbody a b.
+    assert (E1 : (c - 1) mod 65535 = (a + b - 1) mod 65535).
+    { replace (c - 1) with ((a + b - 1) + a * 65535) by lia. apply N.mod_add. discriminate. }
+    rewrite E1. clear E1.
+    assert (B1 : 1 <= a + b <= 131070) by lia.
+    set (c1 := a + b) in *. clearbody c1. clear D Hb H H1 a b c.
     destruct (N.ltb_spec 65535 c1) as [H2|H2].
-    + set (c2 := c1 / 65536 + c1 mod 65536).
-      assert (E2 : c2 = c1 - 65535) by (unfold c2; lia).
-      replace (if 65535 <? c2 then _ else c2) with c2.
-      2:{ destruct (N.ltb_spec 65535 c2); [lia|reflexivity]. }
-      rewrite E2. lia.
-    + lia.
-  - destruct (N.eqb_spec c 0); lia.
+    + assert (Q : c1 / 65536 = 1).
+      { symmetry. apply (N.div_unique c1 65536 1 (c1 - 65536)); lia. }
+      assert (R : c1 mod 65536 = c1 - 65536).
+      { symmetry. apply (N.mod_unique c1 65536 1 (c1 - 65536)); lia. }
+      rewrite Q, R.
+      destruct (N.ltb_spec 65535 (1 + (c1 - 65536))); [lia|].
+      replace (c1 - 1) with ((c1 - 65536) + 1 * 65535) by lia.
+      rewrite N.mod_add by discriminate. rewrite N.mod_small by lia. lia.
+    + rewrite N.mod_small by lia. lia.
+  - destruct (N.eqb_spec c 0) as [->|N0]; [reflexivity|].
+    rewrite N.mod_small by lia. lia.
 Qed.
 
 Lemma ones_range s : 0 < s -> 1 <= ones s <= 65535.
@@ -148,4 +147,707 @@ Proof.
     pose proof (N.mod_lt (s - 1) 65535 ltac:(discriminate)).
     set (q1 := (s - 1) / 65535) in *. set (q2 := (s + d - 1) / 65535) in *.
     rewrite E' in *. set (r := (s - 1) mod 65535) in *. clearbody q1 q2 r. lia.
+Qed.
+
+(** ------------------------------------------------------------------
+    The pseudo header *)
+Definition pseudo_bytes (h : addr_hdr) (len proto : N) : bytes :=
+  be 8 (dst_ia h) ++ be 8 (src_ia h) ++ raw_dst h ++ raw_src h ++ be 4 len ++ [0; 0; 0; proto].
+
+Lemma covered_eq h len upper proto : covered h len upper proto = pseudo_bytes h len proto ++ upper.
+Proof. unfold covered, pseudo_bytes. now rewrite <- !app_assoc. Qed.
+
+(** SCION host addresses: 4, 8, 12 or 16 bytes *)
+Definition wf_hdr (h : addr_hdr) : Prop :=
+  raw_dst h <> [] /\ raw_src h <> [] /\
+  Nat.even (length (raw_dst h)) = true /\ Nat.even (length (raw_src h)) = true /\
+  wf_bytes (raw_dst h) /\ wf_bytes (raw_src h) /\
+  (length (raw_dst h) <= 16)%nat /\ (length (raw_src h) <= 16)%nat.
+
+Lemma wsum_be4 len : len < 2 ^ 32 -> wsum (be 4 len) = len / 65536 + len mod 65536.
+Proof.
+  intros H. pose proof (be_length 4 len) as L. pose proof (be_wf 4 len) as W.
+  pose proof (unbe_be_small 4 len H) as U.
+  destruct (be 4 len) as [|a [|b [|c [|d [|? ?]]]]]; try discriminate.
+  unfold wf_bytes in W.
+  apply Forall_cons_iff in W as [Ha W]. apply Forall_cons_iff in W as [Hb W].
+  apply Forall_cons_iff in W as [Hc W]. apply Forall_cons_iff in W as [Hd _]. unfold wf_byte in *.
+  rewrite !wsum_cons2, wsum_nil. unfold unbe in U. cbn [fold_left] in U.
+  assert (Q : len / 65536 = a * 256 + b).
+  { symmetry. apply (N.div_unique len 65536 _ (c * 256 + d)); lia. }
+  assert (R : len mod 65536 = c * 256 + d).
+  { symmetry. apply (N.mod_unique len 65536 (a * 256 + b)); lia. }
+  rewrite Q, R. lia.
+Qed.
+
+Lemma pseudo_bytes_even h len proto : wf_hdr h -> Nat.even (length (pseudo_bytes h len proto)) = true.
+Proof.
+  intros (_ & _ & E1 & E2 & _). unfold pseudo_bytes. rewrite !app_length, !be_length. cbn [length].
+  rewrite !Nat.even_add, E1, E2. reflexivity.
+Qed.
+
+Lemma pseudo_bytes_wf h len proto : wf_hdr h -> proto < 256 -> wf_bytes (pseudo_bytes h len proto).
+Proof.
+  intros (_ & _ & _ & _ & W1 & W2 & _) P. unfold pseudo_bytes, wf_bytes.
+  rewrite !Forall_app. repeat split; try apply be_wf; try assumption.
+  repeat constructor; unfold wf_byte; lia.
+Qed.
+
+Lemma pseudo_bytes_length h len proto : wf_hdr h -> (length (pseudo_bytes h len proto) <= 56)%nat.
+Proof.
+  intros (_ & _ & _ & _ & _ & _ & L1 & L2). unfold pseudo_bytes. rewrite !app_length, !be_length. cbn [length]. lia.
+Qed.
+
+Lemma pseudo_exact h len proto : wf_hdr h -> len < 2 ^ 32 -> proto < 256 ->
+  pseudo h len proto = Ok (wsum (pseudo_bytes h len proto)).
+Proof.
+  intros WH Hl Hp. pose proof WH as (N1 & N2 & E1 & E2 & W1 & W2 & L1 & L2).
+  assert (B : wsum (pseudo_bytes h len proto) < 2 ^ 32).
+  { apply wsum_lt_2_32; [now apply pseudo_bytes_wf|]. pose proof (pseudo_bytes_length h len proto WH). lia. }
+  unfold pseudo_bytes in B.
+  assert (E8 : forall x, Nat.even (length (be 8 x)) = true) by (intros; now rewrite be_length).
+  assert (E4 : forall x, Nat.even (length (be 4 x)) = true) by (intros; now rewrite be_length).
+  rewrite (wsum_app_even _ _ (E8 _)), (wsum_app_even _ _ (E8 _)), (wsum_app_even _ _ E1),
+    (wsum_app_even _ _ E2), (wsum_app_even _ _ (E4 _)) in B.
+  assert (WP : wsum [0; 0; 0; proto] = proto) by (rewrite !wsum_cons2, wsum_nil; lia).
+  rewrite WP, (wsum_be4 len Hl) in B.
+  unfold pseudo. destruct (raw_dst h) as [|d0 dt] eqn:ED; [contradiction|].
+  destruct (raw_src h) as [|s0 st] eqn:ES; [contradiction|]. rewrite <- ED, <- ES in *.
+  rewrite ia_sum_exact by (rewrite ?be_length; try reflexivity; lia).
+  rewrite (addr_sum_exact (raw_src h)) by (try exact E2; lia).
+  rewrite (addr_sum_exact (raw_dst h)) by (try exact E1; lia).
+  f_equal.
+  assert (UL : u32 len = len) by (unfold u32; now apply N.mod_small).
+  rewrite UL.
+  unfold pseudo_bytes.
+  rewrite (wsum_app_even _ _ (E8 _)), (wsum_app_even _ _ (E8 _)), (wsum_app_even _ _ E1),
+    (wsum_app_even _ _ E2), (wsum_app_even _ _ (E4 _)), WP, (wsum_be4 len Hl).
+  set (L := len / 65536 + len mod 65536) in *.
+  unfold u32. rewrite (N.mod_small L) by lia.
+  rewrite (N.mod_small (_ + L)) by lia.
+  rewrite N.mod_small by lia. lia.
+Qed.
+
+(** ------------------------------------------------------------------
+    Exact values of the verification sum and of the checksum *)
+Definition bounded (upper : bytes) : Prop := N.of_nat (length upper) <= 131000.
+
+Lemma covered_sum_lt h len upper proto : wf_hdr h -> proto < 256 -> wf_bytes upper -> bounded upper ->
+  wsum (covered h len upper proto) < 2 ^ 32.
+Proof.
+  intros WH Hp WU B. apply wsum_lt_2_32.
+  - rewrite covered_eq. apply Forall_app. split; [now apply pseudo_bytes_wf | exact WU].
+  - rewrite covered_eq, app_length. pose proof (pseudo_bytes_length h len proto WH). unfold bounded in B. lia.
+Qed.
+
+Lemma covered_wsum h len upper proto : wf_hdr h ->
+  wsum (covered h len upper proto) = wsum (pseudo_bytes h len proto) + wsum upper.
+Proof. intros WH. rewrite covered_eq. apply wsum_app_even. now apply pseudo_bytes_even. Qed.
+
+Lemma verify_exact h len upper proto :
+  wf_hdr h -> len < 2 ^ 32 -> proto < 256 -> wf_bytes upper -> bounded upper ->
+  verify_sum h len upper proto = Ok (ones (wsum (covered h len upper proto))).
+Proof.
+  intros WH Hl Hp WU B. unfold verify_sum. rewrite (pseudo_exact h len proto WH Hl Hp).
+  pose proof (covered_sum_lt h len upper proto WH Hp WU B) as L.
+  rewrite covered_wsum in * by exact WH.
+  rewrite upper_sum_exact by exact L. now rewrite fold_loop_ones.
+Qed.
+
+Lemma compute_exact h upper proto :
+  wf_hdr h -> proto < 256 -> wf_bytes upper -> bounded upper ->
+  compute_checksum h upper proto =
+  Ok (65535 - ones (wsum (covered h (N.of_nat (length upper)) upper proto))).
+Proof.
+  intros WH Hp WU B. unfold compute_checksum.
+  assert (Hl : N.of_nat (length upper) < 2 ^ 32) by (unfold bounded in B; change (2 ^ 32) with 4294967296; lia).
+  rewrite (pseudo_exact h _ proto WH Hl Hp).
+  pose proof (covered_sum_lt h (N.of_nat (length upper)) upper proto WH Hp WU B) as L.
+  rewrite covered_wsum in * by exact WH.
+  unfold fold. rewrite upper_sum_exact by exact L. rewrite fold_loop_ones by exact L.
+  f_equal. f_equal. apply N.mod_small.
+  unfold ones. destruct (N.eqb_spec (wsum (pseudo_bytes h (N.of_nat (length upper)) proto) + wsum upper) 0); [lia|].
+  pose proof (N.mod_lt (wsum (pseudo_bytes h (N.of_nat (length upper)) proto) + wsum upper - 1) 65535 ltac:(discriminate)).
+  lia.
+Qed.
+
+(** the pseudo header sum is positive (the protocol number is) *)
+Lemma pseudo_pos h len proto : wf_hdr h -> 0 < proto -> 0 < wsum (pseudo_bytes h len proto).
+Proof.
+  intros WH Hp. pose proof WH as (_ & _ & E1 & E2 & _). unfold pseudo_bytes.
+  assert (E8 : forall x, Nat.even (length (be 8 x)) = true) by (intros; now rewrite be_length).
+  assert (E4 : forall x, Nat.even (length (be 4 x)) = true) by (intros; now rewrite be_length).
+  rewrite (wsum_app_even _ _ (E8 _)), (wsum_app_even _ _ (E8 _)), (wsum_app_even _ _ E1),
+    (wsum_app_even _ _ E2), (wsum_app_even _ _ (E4 _)).
+  rewrite !wsum_cons2, wsum_nil. lia.
+Qed.
+
+(** ------------------------------------------------------------------
+    Serialization and verification *)
+Definition wf_l4 (l : l4) : Prop :=
+  match l with
+  | UDP sp dp lf => sp < 65536 /\ dp < 65536 /\ match lf with Some x => x < 65536 | None => True end
+  | SCMP t c => t < 256 /\ c < 256
+  end.
+
+Lemma pre_even l n : Nat.even (length (pre l n)) = true.
+Proof. destruct l; cbn [pre]; [rewrite !app_length, !be_length|]; reflexivity. Qed.
+
+Lemma pre_wf l n : wf_l4 l -> wf_bytes (pre l n).
+Proof.
+  destruct l as [sp dp lf|t c]; cbn [pre wf_l4].
+  - intros _. unfold wf_bytes. rewrite !Forall_app. repeat split; apply be_wf.
+  - intros [H1 H2]. repeat constructor; assumption.
+Qed.
+
+Lemma pre_length l n : N.of_nat (length (pre l n)) = prelen l.
+Proof. destruct l; cbn [pre prelen]; [rewrite !app_length, !be_length|]; reflexivity. Qed.
+
+Lemma proto_range l : 0 < proto_of l < 256.
+Proof. destruct l; unfold proto_of, proto_udp, proto_scmp; lia. Qed.
+
+Lemma wsum_be2 x : x < 65536 -> wsum (be 2 x) = x.
+Proof.
+  intros H. pose proof (be_length 2 x) as L. pose proof (be_wf 2 x) as W.
+  assert (H' : x < 256 ^ N.of_nat 2) by (change (256 ^ N.of_nat 2) with 65536; exact H).
+  pose proof (unbe_be_small 2 x H') as U.
+  destruct (be 2 x) as [|a [|b [|? ?]]]; try discriminate.
+  rewrite wsum_cons2, wsum_nil. unfold unbe in U. cbn [fold_left] in U. lia.
+Qed.
+
+(** inserting a 16-bit value into the (zeroed) checksum field adds it to the sum *)
+Lemma wsum_insert p v post : Nat.even (length p) = true -> v < 65536 ->
+  wsum (p ++ be 2 v ++ post) = wsum (p ++ [0; 0] ++ post) + v.
+Proof.
+  intros E H. rewrite !(wsum_app_even p) by exact E.
+  rewrite (wsum_app_even (be 2 v)) by (now rewrite be_length).
+  rewrite (wsum_app_even [0; 0]) by reflexivity.
+  rewrite wsum_be2 by exact H. rewrite wsum_cons2, wsum_nil. lia.
+Qed.
+
+Lemma ok_inj {A} (x y : A) : Ok x = Ok y -> x = y.
+Proof. intros H. now inversion H. Qed.
+
+Definition small (payload : bytes) : Prop := N.of_nat (length payload) <= 130000.
+
+Lemma serialize_verifies h l payload b :
+  wf_hdr h -> wf_l4 l -> wf_bytes payload -> small payload ->
+  serialize h l payload = Ok b ->
+  verify_sum h (N.of_nat (length b)) b (proto_of l) = Ok 65535.
+Proof.
+  intros WH WL WP SM SER. unfold serialize in SER.
+  set (p := pre l (N.of_nat (length payload))) in *.
+  pose proof (proto_range l) as [P0 P1].
+  assert (Ep : Nat.even (length p) = true) by apply pre_even.
+  assert (Wp : wf_bytes p) by (now apply pre_wf).
+  assert (Lp : (length p <= 6)%nat).
+  { pose proof (pre_length l (N.of_nat (length payload))) as X. fold p in X.
+    assert (prelen l <= 6) by (destruct l; unfold prelen; lia). lia. }
+  set (u0 := p ++ [0; 0] ++ payload) in *.
+  assert (W0 : wf_bytes u0).
+  { unfold u0. apply Forall_app. split; [exact Wp|]. apply Forall_app. split; [|exact WP].
+    repeat constructor; unfold wf_byte; lia. }
+  assert (B0 : bounded u0).
+  { unfold bounded, u0, small in *. rewrite !app_length. cbn [length]. lia. }
+  rewrite (compute_exact h u0 _ WH P1 W0 B0) in SER. apply ok_inj in SER. rename SER into SER'.
+  set (S := wsum (covered h (N.of_nat (length u0)) u0 (proto_of l))) in *.
+  assert (SP : 0 < S).
+  { unfold S. rewrite covered_wsum by exact WH. pose proof (pseudo_pos h (N.of_nat (length u0)) _ WH P0). lia. }
+  pose proof (ones_range S SP) as OR.
+  set (ck := 65535 - ones S) in *.
+  assert (CK : ck < 65536) by (unfold ck; lia).
+  assert (LB : length (p ++ be 2 ck ++ payload) = length u0).
+  { unfold u0. rewrite !app_length, be_length. reflexivity. }
+  assert (WB : wf_bytes (p ++ be 2 ck ++ payload)).
+  { apply Forall_app. split; [exact Wp|]. apply Forall_app. split; [apply be_wf | exact WP]. }
+  assert (BB : bounded (p ++ be 2 ck ++ payload)) by (unfold bounded in *; rewrite LB; exact B0).
+  assert (Hl : N.of_nat (length (p ++ be 2 ck ++ payload)) < 2 ^ 32).
+  { unfold bounded in BB. change (2 ^ 32) with 4294967296. lia. }
+  subst b. rewrite (verify_exact h _ _ _ WH Hl P1 WB BB). f_equal.
+  rewrite covered_wsum by exact WH. rewrite (wsum_insert p ck payload Ep CK). rewrite LB.
+  fold u0. rewrite N.add_assoc. rewrite <- (covered_wsum h _ u0 _ WH). fold S.
+  unfold ck. now apply ones_complement.
+Qed.
+
+(** ------------------------------------------------------------------
+    Single-bit flips *)
+Lemma land_pow2_false a k : N.testbit a k = false -> N.land a (2 ^ k) = 0.
+Proof.
+  intros H. apply N.bits_inj. intros n. rewrite N.land_spec, N.bits_0, N.pow2_bits_eqb.
+  destruct (N.eqb_spec k n) as [<-|_]; [rewrite H; reflexivity | apply andb_false_r].
+Qed.
+
+Lemma lxor_pow2_false a k : N.testbit a k = false -> N.lxor a (2 ^ k) = a + 2 ^ k.
+Proof. intros H. symmetry. apply N.add_nocarry_lxor. now apply land_pow2_false. Qed.
+
+Lemma lxor_pow2_true a k : N.testbit a k = true -> N.lxor a (2 ^ k) + 2 ^ k = a.
+Proof.
+  intros H. set (a' := N.lxor a (2 ^ k)).
+  assert (F : N.testbit a' k = false).
+  { unfold a'. rewrite N.lxor_spec, H, N.pow2_bits_eqb, N.eqb_refl. reflexivity. }
+  rewrite <- (lxor_pow2_false a' k F). unfold a'.
+  now rewrite N.lxor_assoc, N.lxor_nilpotent, N.lxor_0_r.
+Qed.
+
+(** flipping a bit changes a number by exactly that power of two, up or down *)
+Lemma lxor_pow2_cases a k :
+  N.lxor a (2 ^ k) = a + 2 ^ k \/ N.lxor a (2 ^ k) + 2 ^ k = a.
+Proof.
+  destruct (N.testbit a k) eqn:E; [right; now apply lxor_pow2_true | left; now apply lxor_pow2_false].
+Qed.
+
+Lemma sum_app a b : sum (a ++ b) = sum a + sum b.
+Proof. unfold sum. induction a as [|x t IH]; cbn [app fold_right]; [reflexivity|]. rewrite IH. lia. Qed.
+
+Lemma flip_nth_split ws i mask : (i < length ws)%nat ->
+  exists x t, skipn i ws = x :: t /\ ws = firstn i ws ++ x :: t /\
+              flip_nth ws i mask = firstn i ws ++ N.lxor x mask :: t.
+Proof.
+  intros H. destruct (skipn i ws) as [|x t] eqn:E.
+  - apply (f_equal (@length N)) in E. rewrite skipn_length in E. cbn in E. lia.
+  - exists x, t. split; [reflexivity|]. split.
+    + rewrite <- E. symmetry. apply firstn_skipn.
+    + unfold flip_nth. rewrite E. reflexivity.
+Qed.
+
+Lemma sum_flip ws i k : (i < length ws)%nat ->
+  sum (flip_nth ws i (2 ^ k)) = sum ws + 2 ^ k \/ sum (flip_nth ws i (2 ^ k)) + 2 ^ k = sum ws.
+Proof.
+  intros H. destruct (flip_nth_split ws i (2 ^ k) H) as (x & t & _ & E1 & E2).
+  rewrite E2. rewrite E1 at 2 4. rewrite !sum_app. unfold sum at 2 4 6 8. cbn [fold_right]. fold (sum t).
+  destruct (lxor_pow2_cases x k) as [C|C]; [left|right]; lia.
+Qed.
+
+Lemma pow2_small k : k < 16 -> 0 < 2 ^ k < 65535.
+Proof.
+  intros H. split; [apply N.neq_0_lt_0, N.pow_nonzero; discriminate|].
+  assert (2 ^ k <= 2 ^ 15) by (apply N.pow_le_mono_r; [discriminate | lia]).
+  change (2 ^ 15) with 32768 in *. lia.
+Qed.
+
+(** the arithmetic heart: over any sequence of 16-bit words, flipping one bit of one word changes
+    the folded one's complement sum *)
+Lemma single_bit_words ws i k : (i < length ws)%nat -> k < 16 ->
+  ones (sum (flip_nth ws i (2 ^ k))) <> ones (sum ws).
+Proof.
+  intros Hi Hk. pose proof (pow2_small k Hk) as D.
+  destruct (sum_flip ws i k Hi) as [E|E].
+  - rewrite E. now apply ones_shift.
+  - rewrite <- E. intros X. symmetry in X. revert X. now apply ones_shift.
+Qed.
+
+(** bits of a 16-bit word built from two bytes *)
+Lemma small_bits_high lo m : lo < 256 -> 8 <= m -> N.testbit lo m = false.
+Proof.
+  intros H Hm. rewrite <- (N.mod_small lo (2 ^ 8)) by exact H. apply N.mod_pow2_bits_high. exact Hm.
+Qed.
+
+Lemma word_nocarry hi lo : lo < 256 -> hi * 256 + lo = N.lxor (hi * 2 ^ 8) lo.
+Proof.
+  intros H. change 256 with (2 ^ 8) at 1. apply N.add_nocarry_lxor. apply N.bits_inj. intros n.
+  rewrite N.land_spec, N.bits_0. destruct (N.ltb_spec n 8) as [L|L].
+  - rewrite N.mul_pow2_bits_low by exact L. reflexivity.
+  - rewrite (small_bits_high lo n H L). apply andb_false_r.
+Qed.
+
+Lemma word_bits hi lo m : lo < 256 ->
+  N.testbit (hi * 256 + lo) m = if m <? 8 then N.testbit lo m else N.testbit hi (m - 8).
+Proof.
+  intros H. rewrite (word_nocarry hi lo H), N.lxor_spec. destruct (N.ltb_spec m 8) as [L|L].
+  - rewrite N.mul_pow2_bits_low by exact L. apply xorb_false_l.
+  - rewrite N.mul_pow2_bits_high by exact L. rewrite (small_bits_high lo m H L). apply xorb_false_r.
+Qed.
+
+Lemma lxor_hi hi lo j : lo < 256 -> N.lxor (hi * 256 + lo) (2 ^ (j + 8)) = N.lxor hi (2 ^ j) * 256 + lo.
+Proof.
+  intros H. assert (P : 2 ^ (j + 8) = 2 ^ j * 256) by (rewrite N.pow_add_r; reflexivity).
+  assert (B : N.testbit (hi * 256 + lo) (j + 8) = N.testbit hi j).
+  { rewrite word_bits by exact H. destruct (N.ltb_spec (j + 8) 8); [lia|]. f_equal. lia. }
+  destruct (N.testbit hi j) eqn:E.
+  - pose proof (lxor_pow2_true _ _ B) as X. pose proof (lxor_pow2_true _ _ E) as Y. rewrite P in *. lia.
+  - pose proof (lxor_pow2_false _ _ B) as X. pose proof (lxor_pow2_false _ _ E) as Y. rewrite P in *. lia.
+Qed.
+
+Lemma lxor_lo hi lo j : lo < 256 -> j < 8 -> N.lxor (hi * 256 + lo) (2 ^ j) = hi * 256 + N.lxor lo (2 ^ j).
+Proof.
+  intros H Hj.
+  assert (B : N.testbit (hi * 256 + lo) j = N.testbit lo j).
+  { rewrite word_bits by exact H. destruct (N.ltb_spec j 8); [reflexivity|lia]. }
+  destruct (N.testbit lo j) eqn:E.
+  - pose proof (lxor_pow2_true _ _ B) as X. pose proof (lxor_pow2_true _ _ E) as Y. lia.
+  - pose proof (lxor_pow2_false _ _ B) as X. pose proof (lxor_pow2_false _ _ E) as Y. lia.
+Qed.
+
+Lemma flip_bit_0 x t j : flip_bit (x :: t) 0 j = N.lxor x (2 ^ j) :: t.
+Proof. reflexivity. Qed.
+Lemma flip_bit_S x t p j : flip_bit (x :: t) (S p) j = x :: flip_bit t p j.
+Proof. reflexivity. Qed.
+Lemma flip_nth_0 x t m : flip_nth (x :: t) 0 m = N.lxor x m :: t.
+Proof. reflexivity. Qed.
+Lemma flip_nth_S x t p m : flip_nth (x :: t) (S p) m = x :: flip_nth t p m.
+Proof. reflexivity. Qed.
+
+(** the glue between bytes and words: flipping bit j of byte p is flipping bit j (odd p) or j+8
+    (even p) of word p/2 — also for the zero-padded last word of an odd-length string *)
+Lemma words_of_flip l : forall p j, wf_bytes l -> (p < length l)%nat -> j < 8 ->
+  words_of (flip_bit l p j) =
+  flip_nth (words_of l) (Nat.div2 p) (2 ^ (if Nat.even p then j + 8 else j)).
+Proof.
+  revert l. apply (pair_ind (fun l => forall p j, wf_bytes l -> (p < length l)%nat -> j < 8 ->
+    words_of (flip_bit l p j) = flip_nth (words_of l) (Nat.div2 p) (2 ^ (if Nat.even p then j + 8 else j)))).
+  - intros p j _ H. cbn in H. lia.
+  - intros x p j W H Hj. cbn [length] in H. assert (p = 0%nat) by lia. subst p.
+    rewrite flip_bit_0. cbn [words_of Nat.div2 Nat.even]. rewrite flip_nth_0.
+    f_equal. pose proof (lxor_hi x 0 j ltac:(lia)) as X. rewrite !N.add_0_r in X. now rewrite X.
+  - intros x y t IH p j W H Hj. unfold wf_bytes in W.
+    apply Forall_cons_iff in W as [Hx W]. apply Forall_cons_iff in W as [Hy W]. unfold wf_byte in *.
+    destruct p as [|[|p]].
+    + rewrite flip_bit_0. cbn [words_of Nat.div2 Nat.even]. rewrite flip_nth_0. f_equal.
+      symmetry. now apply lxor_hi.
+    + rewrite flip_bit_S, flip_bit_0. cbn [words_of Nat.div2 Nat.even]. rewrite flip_nth_0. f_equal.
+      symmetry. now apply lxor_lo.
+    + rewrite !flip_bit_S. cbn [words_of]. change (Nat.div2 (S (S p))) with (S (Nat.div2 p)).
+      change (Nat.even (S (S p))) with (Nat.even p). rewrite flip_nth_S. f_equal.
+      apply IH; [exact W | cbn [length] in H; lia | exact Hj].
+Qed.
+
+Lemma words_of_length l : length (words_of l) = Nat.div2 (S (length l)).
+Proof.
+  revert l. apply (pair_ind (fun l => length (words_of l) = Nat.div2 (S (length l)))); intros; try reflexivity.
+  cbn [words_of length]. rewrite H. reflexivity.
+Qed.
+
+Lemma div2_lt p n : (p < n)%nat -> (Nat.div2 p < Nat.div2 (S n))%nat.
+Proof.
+  intros H. rewrite !Nat.div2_div.
+  assert (p / 2 * 2 <= p)%nat by (rewrite Nat.mul_comm; apply Nat.mul_div_le; discriminate).
+  assert (S n < (S n / 2 + 1) * 2)%nat.
+  { pose proof (Nat.div_mod (S n) 2 ltac:(discriminate)). pose proof (Nat.mod_upper_bound (S n) 2 ltac:(discriminate)). lia. }
+  nia.
+Qed.
+
+(** byte level: flipping any bit of any byte changes the folded sum *)
+Lemma single_bit_bytes l p j : wf_bytes l -> (p < length l)%nat -> j < 8 ->
+  ones (wsum (flip_bit l p j)) <> ones (wsum l).
+Proof.
+  intros W H Hj. unfold wsum. rewrite (words_of_flip l p j W H Hj).
+  apply single_bit_words.
+  - rewrite words_of_length. now apply div2_lt.
+  - destruct (Nat.even p); lia.
+Qed.
+
+(** ------------------------------------------------------------------
+    Flips inside concatenations, of bytes, and of big-endian numbers *)
+Lemma flip_nth_length l p m : length (flip_nth l p m) = length l.
+Proof.
+  unfold flip_nth. rewrite app_length. rewrite <- (firstn_skipn p l) at 3. rewrite app_length. f_equal.
+  destruct (skipn p l); reflexivity.
+Qed.
+
+Lemma flip_bit_length l p j : length (flip_bit l p j) = length l.
+Proof. apply flip_nth_length. Qed.
+
+Lemma flip_bit_app_l a b p j : (p < length a)%nat -> flip_bit (a ++ b) p j = flip_bit a p j ++ b.
+Proof.
+  revert p. induction a as [|x t IH]; intros p H; [cbn in H; lia|].
+  destruct p as [|p]; cbn [app].
+  - now rewrite !flip_bit_0.
+  - rewrite !flip_bit_S. cbn [app]. f_equal. apply IH. cbn in H. lia.
+Qed.
+
+Lemma flip_bit_app_r a b p j : flip_bit (a ++ b) (length a + p) j = a ++ flip_bit b p j.
+Proof.
+  induction a as [|x t IH]; [reflexivity|]. cbn [app length Nat.add]. rewrite flip_bit_S. now rewrite IH.
+Qed.
+
+Lemma flip_mid a x b p j : (p < length x)%nat ->
+  a ++ flip_bit x p j ++ b = flip_bit (a ++ x ++ b) (length a + p) j.
+Proof. intros H. rewrite flip_bit_app_r, flip_bit_app_l by exact H. reflexivity. Qed.
+
+Lemma lxor_byte x j : x < 256 -> j < 8 -> N.lxor x (2 ^ j) < 256.
+Proof.
+  intros Hx Hj.
+  assert (E : N.lxor x (2 ^ j) mod 2 ^ 8 = N.lxor x (2 ^ j)).
+  { apply N.bits_inj. intros n. destruct (N.ltb_spec n 8) as [L|L].
+    - now rewrite N.mod_pow2_bits_low.
+    - rewrite N.mod_pow2_bits_high by exact L. rewrite N.lxor_spec, (small_bits_high x n Hx L), N.pow2_bits_eqb.
+      destruct (N.eqb_spec j n); [lia|reflexivity]. }
+  rewrite <- E. change 256 with (2 ^ 8). apply N.mod_lt. discriminate.
+Qed.
+
+Lemma flip_bit_wf l p j : wf_bytes l -> j < 8 -> wf_bytes (flip_bit l p j).
+Proof.
+  intros W Hj. unfold flip_bit, flip_nth, wf_bytes. apply Forall_app. split.
+  - rewrite <- (firstn_skipn p l) in W. apply Forall_app in W. tauto.
+  - destruct (skipn p l) as [|x t] eqn:E; [constructor|].
+    rewrite <- (firstn_skipn p l), E in W. apply Forall_app in W as [_ W].
+    apply Forall_cons_iff in W as [Hx Ht]. constructor; [|exact Ht]. now apply lxor_byte.
+Qed.
+
+(** byte [m] (counted from the least significant one) of a number *)
+Definition byte_at (n m : N) : N := (n / 256 ^ m) mod 256.
+
+Lemma byte_at_bits n m t : N.testbit (byte_at n m) t = (t <? 8) && N.testbit n (t + 8 * m).
+Proof.
+  unfold byte_at. change 256 with (2 ^ 8). rewrite <- N.pow_mul_r.
+  destruct (N.ltb_spec t 8) as [L|L]; cbn [andb].
+  - rewrite N.mod_pow2_bits_low by exact L. apply N.div_pow2_bits.
+  - apply N.mod_pow2_bits_high. exact L.
+Qed.
+
+Lemma byte_at_lxor n i m :
+  byte_at (N.lxor n (2 ^ i)) m =
+  if i / 8 =? m then N.lxor (byte_at n m) (2 ^ (i mod 8)) else byte_at n m.
+Proof.
+  apply N.bits_inj. intros t. rewrite byte_at_bits, N.lxor_spec, N.pow2_bits_eqb.
+  destruct (N.eqb_spec (i / 8) m) as [E|E].
+  - rewrite N.lxor_spec, byte_at_bits, N.pow2_bits_eqb.
+    destruct (N.ltb_spec t 8) as [L|L]; cbn [andb].
+    + f_equal. destruct (N.eqb_spec i (t + 8 * m)), (N.eqb_spec (i mod 8) t); try reflexivity; lia.
+    + destruct (N.eqb_spec (i mod 8) t); [lia|reflexivity].
+  - rewrite byte_at_bits. destruct (N.ltb_spec t 8) as [L|L]; cbn [andb]; [|reflexivity].
+    destruct (N.eqb_spec i (t + 8 * m)); [lia|]. now rewrite xorb_false_r.
+Qed.
+
+Lemma be_cons k n : be (S k) n = byte_at n (N.of_nat k) :: be k n.
+Proof. reflexivity. Qed.
+
+(** flipping bit i of a number flips bit (i mod 8) of byte (k-1 - i/8) of its k-byte big-endian form *)
+Lemma be_lxor k : forall n i,
+  be k (N.lxor n (2 ^ i)) =
+  if i / 8 <? N.of_nat k then flip_bit (be k n) (k - 1 - N.to_nat (i / 8)) (i mod 8) else be k n.
+Proof.
+  induction k as [|k IH]; intros n i.
+  - destruct (i / 8 <? N.of_nat 0); reflexivity.
+  - rewrite !be_cons, byte_at_lxor, IH.
+    destruct (N.eqb_spec (i / 8) (N.of_nat k)) as [E|E].
+    + destruct (N.ltb_spec (i / 8) (N.of_nat k)); [lia|].
+      destruct (N.ltb_spec (i / 8) (N.of_nat (S k))); [|lia].
+      replace (S k - 1 - N.to_nat (i / 8))%nat with 0%nat by lia. now rewrite flip_bit_0.
+    + destruct (N.ltb_spec (i / 8) (N.of_nat k)) as [L|L].
+      * destruct (N.ltb_spec (i / 8) (N.of_nat (S k))); [|lia].
+        replace (S k - 1 - N.to_nat (i / 8))%nat with (S (k - 1 - N.to_nat (i / 8))) by lia.
+        now rewrite flip_bit_S.
+      * destruct (N.ltb_spec (i / 8) (N.of_nat (S k))); [lia|reflexivity].
+Qed.
+
+Lemma be8_flip n i : i < 64 ->
+  be 8 (N.lxor n (2 ^ i)) = flip_bit (be 8 n) (7 - N.to_nat (i / 8)) (i mod 8) /\
+  (7 - N.to_nat (i / 8) < 8)%nat /\ i mod 8 < 8.
+Proof.
+  intros H. rewrite be_lxor. destruct (N.ltb_spec (i / 8) (N.of_nat 8)); [|lia].
+  split; [reflexivity|]. split; [lia|]. apply N.mod_lt. discriminate.
+Qed.
+
+(** ------------------------------------------------------------------
+    Single-bit flips of the covered data *)
+Lemma covered_wf h len upper proto : wf_hdr h -> proto < 256 -> wf_bytes upper ->
+  wf_bytes (covered h len upper proto).
+Proof.
+  intros WH Hp WU. rewrite covered_eq. apply Forall_app. split; [now apply pseudo_bytes_wf | exact WU].
+Qed.
+
+Lemma single_bit_covered h len upper proto h' len' upper' proto' p j :
+  wf_hdr h -> len < 2 ^ 32 -> proto < 256 -> wf_bytes upper -> bounded upper ->
+  wf_hdr h' -> len' < 2 ^ 32 -> proto' < 256 -> wf_bytes upper' -> bounded upper' ->
+  (p < length (covered h len upper proto))%nat -> j < 8 ->
+  covered h' len' upper' proto' = flip_bit (covered h len upper proto) p j ->
+  verify_sum h' len' upper' proto' <> verify_sum h len upper proto.
+Proof.
+  intros WH Hl Hp WU B WH' Hl' Hp' WU' B' P J E.
+  rewrite (verify_exact h len upper proto WH Hl Hp WU B).
+  rewrite (verify_exact h' len' upper' proto' WH' Hl' Hp' WU' B').
+  rewrite E. intros X. apply ok_inj in X. revert X.
+  apply single_bit_bytes; [now apply covered_wf | exact P | exact J].
+Qed.
+
+Definition valid_flip (h : addr_hdr) (pl : N) (upper : bytes) (region idx bit : N) : Prop :=
+  (region = 0 /\ idx < 64) \/ (region = 1 /\ idx < 64) \/
+  (region = 2 /\ (N.to_nat idx < length (raw_dst h))%nat /\ bit < 8) \/
+  (region = 3 /\ (N.to_nat idx < length (raw_src h))%nat /\ bit < 8) \/
+  (region = 4 /\ idx < pl /\ (N.to_nat pl <= length upper)%nat /\ bit < 8) \/
+  (region = 5 /\ (N.to_nat (pl + 2 + idx) < length upper)%nat /\ bit < 8).
+
+Lemma covered_flip h len upper proto pl region idx bit :
+  wf_hdr h -> wf_bytes upper -> valid_flip h pl upper region idx bit ->
+  let h' := flip_hdr h region idx bit in
+  let u' := flip_upper pl upper region idx bit in
+  wf_hdr h' /\ wf_bytes u' /\ length u' = length upper /\
+  exists p j, j < 8 /\ (p < length (covered h len upper proto))%nat /\
+              covered h' len u' proto = flip_bit (covered h len upper proto) p j.
+Proof.
+  intros WH WU V. pose proof WH as (N1 & N2 & E1 & E2 & W1 & W2 & L1 & L2). cbv zeta.
+  destruct V as [[-> V]|[[-> V]|[[-> [V J]]|[[-> [V J]]|[[-> (V1 & V2 & J)]|[-> [V J]]]]]]];
+    cbn [flip_hdr flip_upper].
+  - (* DstIA *)
+    destruct (be8_flip (dst_ia h) idx V) as (E & Q & J).
+    split; [exact WH|]. split; [exact WU|]. split; [reflexivity|].
+    exists (7 - N.to_nat (idx / 8))%nat, (idx mod 8). split; [exact J|]. split.
+    + unfold covered. rewrite app_length, be_length. lia.
+    + unfold covered. cbn [dst_ia src_ia raw_dst raw_src]. rewrite E.
+      symmetry. apply flip_bit_app_l. now rewrite be_length.
+  - (* SrcIA *)
+    destruct (be8_flip (src_ia h) idx V) as (E & Q & J).
+    split; [exact WH|]. split; [exact WU|]. split; [reflexivity|].
+    exists (8 + (7 - N.to_nat (idx / 8)))%nat, (idx mod 8). split; [exact J|]. split.
+    + unfold covered. rewrite !app_length, !be_length. lia.
+    + unfold covered. cbn [dst_ia src_ia raw_dst raw_src]. rewrite E.
+      rewrite <- (be_length 8 (dst_ia h)) at 2. apply flip_mid. now rewrite be_length.
+  - (* raw dst *)
+    split.
+    { unfold wf_hdr. cbn [raw_dst raw_src]. rewrite flip_bit_length.
+      repeat split; try assumption.
+      - intros X. apply (f_equal (@length N)) in X. rewrite flip_bit_length in X.
+        destruct (raw_dst h); [contradiction | discriminate].
+      - now apply flip_bit_wf. }
+    split; [exact WU|]. split; [reflexivity|].
+    exists (length (be 8 (dst_ia h) ++ be 8 (src_ia h)) + N.to_nat idx)%nat, bit. split; [exact J|]. split.
+    + unfold covered. rewrite !app_length, !be_length. lia.
+    + unfold covered. cbn [dst_ia src_ia raw_dst raw_src].
+      rewrite (app_assoc (be 8 (dst_ia h)) (be 8 (src_ia h))).
+      rewrite (app_assoc (be 8 (dst_ia h)) (be 8 (src_ia h)) (raw_dst h ++ _)).
+      apply flip_mid. exact V.
+  - (* raw src *)
+    split.
+    { unfold wf_hdr. cbn [raw_dst raw_src]. rewrite flip_bit_length.
+      repeat split; try assumption.
+      - intros X. apply (f_equal (@length N)) in X. rewrite flip_bit_length in X.
+        destruct (raw_src h); [contradiction | discriminate].
+      - now apply flip_bit_wf. }
+    split; [exact WU|]. split; [reflexivity|].
+    exists (length (be 8 (dst_ia h) ++ be 8 (src_ia h) ++ raw_dst h) + N.to_nat idx)%nat, bit.
+    split; [exact J|]. split.
+    + unfold covered. rewrite !app_length, !be_length. lia.
+    + unfold covered. cbn [dst_ia src_ia raw_dst raw_src].
+      assert (A : forall X, be 8 (dst_ia h) ++ be 8 (src_ia h) ++ raw_dst h ++ X =
+                            (be 8 (dst_ia h) ++ be 8 (src_ia h) ++ raw_dst h) ++ X).
+      { intros X. now rewrite <- !app_assoc. }
+      rewrite !A. apply flip_mid. exact V.
+  - (* L4 bytes in front of the checksum *)
+    split; [exact WH|]. split; [now apply flip_bit_wf|]. split; [apply flip_bit_length|].
+    exists (length (pseudo_bytes h len proto) + N.to_nat idx)%nat, bit. split; [exact J|]. split.
+    + rewrite covered_eq, app_length. lia.
+    + rewrite !covered_eq. symmetry. apply flip_bit_app_r.
+  - (* payload *)
+    split; [exact WH|]. split; [now apply flip_bit_wf|]. split; [apply flip_bit_length|].
+    exists (length (pseudo_bytes h len proto) + N.to_nat (pl + 2 + idx))%nat, bit. split; [exact J|]. split.
+    + rewrite covered_eq, app_length. lia.
+    + rewrite !covered_eq. symmetry. apply flip_bit_app_r.
+Qed.
+
+(** ------------------------------------------------------------------
+    The oracle of [check] holds on the model *)
+Lemma be2_split ck : ck < 65536 -> exists a b, be 2 ck = [a; b] /\ a * 256 + b = ck.
+Proof.
+  intros H. pose proof (be_length 2 ck) as L.
+  assert (H' : ck < 256 ^ N.of_nat 2) by (change (256 ^ N.of_nat 2) with 65536; exact H).
+  pose proof (unbe_be_small 2 ck H') as U.
+  destruct (be 2 ck) as [|a [|b [|? ?]]]; try discriminate.
+  exists a, b. split; [reflexivity|]. unfold unbe in U. cbn [fold_left] in U. lia.
+Qed.
+
+Lemma ck_of_serialized p ck payload : ck < 65536 ->
+  ck_of (N.of_nat (length p)) (p ++ be 2 ck ++ payload) = ck.
+Proof.
+  intros H. unfold ck_of. rewrite Nat2N.id, skipn_app, skipn_all, Nat.sub_diag. cbn [app skipn].
+  destruct (be2_split ck H) as (a & b & -> & E). exact E.
+Qed.
+
+(** the serialized bytes, spelled out *)
+Lemma serialize_eq h l payload b :
+  wf_hdr h -> wf_l4 l -> wf_bytes payload -> small payload -> serialize h l payload = Ok b ->
+  let p := pre l (N.of_nat (length payload)) in
+  let u0 := p ++ [0; 0] ++ payload in
+  let ck := 65535 - ones (wsum (covered h (N.of_nat (length u0)) u0 (proto_of l))) in
+  b = p ++ be 2 ck ++ payload /\ ck < 65536 /\ wf_bytes u0 /\ bounded u0 /\ wf_bytes b /\ bounded b /\
+  length b = length u0 /\
+  compute_checksum h u0 (proto_of l) = Ok ck.
+Proof.
+  intros WH WL WP SM SER. cbv zeta. unfold serialize in SER.
+  set (p := pre l (N.of_nat (length payload))) in *.
+  pose proof (proto_range l) as [P0 P1].
+  assert (Wp : wf_bytes p) by (now apply pre_wf).
+  assert (Lp : (length p <= 6)%nat).
+  { pose proof (pre_length l (N.of_nat (length payload))) as X. fold p in X.
+    assert (prelen l <= 6) by (destruct l; unfold prelen; lia). lia. }
+  set (u0 := p ++ [0; 0] ++ payload) in *.
+  assert (W0 : wf_bytes u0).
+  { unfold u0. apply Forall_app. split; [exact Wp|]. apply Forall_app. split; [|exact WP].
+    repeat constructor; unfold wf_byte; lia. }
+  assert (B0 : bounded u0).
+  { unfold bounded, u0, small in *. rewrite !app_length. cbn [length]. lia. }
+  pose proof (compute_exact h u0 _ WH P1 W0 B0) as CE. rewrite CE in SER. apply ok_inj in SER.
+  set (S := wsum (covered h (N.of_nat (length u0)) u0 (proto_of l))) in *.
+  assert (CK : 65535 - ones S < 65536) by lia.
+  assert (LB : length (p ++ be 2 (65535 - ones S) ++ payload) = length u0).
+  { unfold u0. rewrite !app_length, be_length. reflexivity. }
+  subst b. repeat split; try assumption.
+  - apply Forall_app. split; [exact Wp|]. apply Forall_app. split; [apply be_wf | exact WP].
+  - unfold bounded in *. rewrite LB. exact B0.
+Qed.
+
+Lemma flip_oracle_model h l payload b region idx bit :
+  wf_hdr h -> wf_l4 l -> wf_bytes payload -> small payload -> serialize h l payload = Ok b ->
+  valid_flip h (prelen l) b region idx bit ->
+  let upper0 := pre l (N.of_nat (length payload)) ++ [0; 0] ++ payload in
+  flip_oracle h l b (region, idx, bit, model_flip h l upper0 (region, idx, bit, 0)) = true.
+Proof.
+  intros WH WL WP SM SER V. cbv zeta.
+  destruct (serialize_eq h l payload b WH WL WP SM SER) as (EB & CK & W0 & B0 & WB & BB & LB & CE).
+  pose proof (proto_range l) as [P0 P1].
+  set (p := pre l (N.of_nat (length payload))) in *.
+  set (u0 := p ++ [0; 0] ++ payload) in *.
+  set (n := N.of_nat (length u0)) in *.
+  assert (Hn : n < 2 ^ 32) by (unfold n, bounded in *; change (2 ^ 32) with 4294967296; lia).
+  assert (V0 : valid_flip h (prelen l) u0 region idx bit).
+  { unfold valid_flip in *. rewrite <- LB. exact V. }
+  (* the flipped serialized bytes *)
+  destruct (covered_flip h n b (proto_of l) (prelen l) region idx bit WH WB V)
+    as (WH' & WB' & LB' & pp & jj & J & PP & EC).
+  (* the flipped sender input *)
+  destruct (covered_flip h n u0 (proto_of l) (prelen l) region idx bit WH W0 V0)
+    as (_ & W0' & L0' & pp0 & jj0 & J0 & PP0 & EC0).
+  set (h' := flip_hdr h region idx bit) in *.
+  set (b' := flip_upper (prelen l) b region idx bit) in *.
+  set (u0' := flip_upper (prelen l) u0 region idx bit) in *.
+  assert (BB' : bounded b') by (unfold bounded in *; rewrite LB'; exact BB).
+  assert (B0' : bounded u0') by (unfold bounded in *; rewrite L0'; exact B0).
+  unfold flip_oracle. fold h' b'. rewrite LB. fold n.
+  (* part 1: the verification sum over the flipped bytes *)
+  pose proof (serialize_verifies h l payload b WH WL WP SM SER) as VER. rewrite LB in VER. fold n in VER.
+  pose proof (single_bit_covered h n b (proto_of l) h' n b' (proto_of l) pp jj
+                WH Hn P1 WB BB WH' Hn P1 WB' BB' PP J EC) as NE.
+  rewrite (verify_exact h' n b' _ WH' Hn P1 WB' BB') in *. rewrite VER in NE.
+  destruct (N.eqb_spec (ones (wsum (covered h' n b' (proto_of l)))) 65535) as [X|_];
+    [rewrite X in NE; contradiction|]. cbn [negb andb].
+  (* part 2: the checksum written for the flipped input differs *)
+  unfold model_flip. fold h' u0'.
+  pose proof (compute_exact h' u0' _ WH' P1 W0' B0') as CE'. rewrite L0' in CE'. fold n in CE'.
+  rewrite CE'. rewrite EB.
+  assert (PL : prelen l = N.of_nat (length p)) by (symmetry; apply pre_length).
+  rewrite PL, (ck_of_serialized p _ payload CK).
+  rewrite EC0.
+  pose proof (single_bit_bytes (covered h n u0 (proto_of l)) pp0 jj0
+                (covered_wf h n u0 _ WH P1 W0) PP0 J0) as NE0.
+  assert (SP : 0 < wsum (covered h n u0 (proto_of l))).
+  { rewrite covered_wsum by exact WH. pose proof (pseudo_pos h n _ WH P0). lia. }
+  assert (SP' : 0 < wsum (flip_bit (covered h n u0 (proto_of l)) pp0 jj0)).
+  { rewrite <- EC0. rewrite covered_wsum by exact WH'. pose proof (pseudo_pos h' n _ WH' P0). lia. }
+  pose proof (ones_range _ SP). pose proof (ones_range _ SP').
+  destruct (N.eqb_spec (65535 - ones (wsum (flip_bit (covered h n u0 (proto_of l)) pp0 jj0)))
+                       (65535 - ones (wsum (covered h n u0 (proto_of l))))) as [X|_]; [|reflexivity].
+  exfalso. apply NE0. lia.
+Qed.
+
+Lemma lxor_lt_pow2 a i w : a < 2 ^ w -> i < w -> N.lxor a (2 ^ i) < 2 ^ w.
+Proof.
+  intros Ha Hi.
+  assert (E : N.lxor a (2 ^ i) mod 2 ^ w = N.lxor a (2 ^ i)).
+  { apply N.bits_inj. intros n. destruct (N.ltb_spec n w) as [L|L].
+    - now rewrite N.mod_pow2_bits_low.
+    - rewrite N.mod_pow2_bits_high by exact L. rewrite N.lxor_spec, N.pow2_bits_eqb.
+      assert (F : N.testbit a n = false).
+      { rewrite <- (N.mod_small a (2 ^ w)) by exact Ha. now apply N.mod_pow2_bits_high. }
+      rewrite F. destruct (N.eqb_spec i n); [lia|reflexivity]. }
+  rewrite <- E. apply N.mod_lt. apply N.pow_nonzero. discriminate.
 Qed.
